@@ -539,6 +539,8 @@ def psrc(p):
         return "(%s)" % ", ".join(psrc(x) for x in p["pats"])
     if k == "lit":
         v = p["v"]
+        if "bool" in v:
+            return "true" if v["bool"] else "false"
         return json.dumps(v.get("str")) if "str" in v else str(list(v.values())[0])
     if k == "slice":
         return "[%s]" % ", ".join(psrc(x) for x in p["pats"])
